@@ -314,6 +314,191 @@ def search_c(tu):
     return dict(findings=findings, n=n)
 
 
+# ---------------------------------------------------------------------------
+# Python leaf mutators: the slot index comes from the search; insertion only
+# when the key is absent, removal only when it was found.  Decided on every
+# syntactic path, with the index tracked as an affine function a*S + b of the
+# search result S (S >= 0: found at S; S < 0: absent, insertion point -S - 1).
+# Names of locals play no role.
+
+class _PathEnd(Exception):
+    pass
+
+
+def _affine(e, env):
+    """(a, b) with value a*S + b, or None"""
+    if isinstance(e, ast.Constant) and isinstance(e.value, int) and not isinstance(e.value, bool):
+        return (0, e.value)
+    if isinstance(e, ast.Name):
+        return env.get(e.id)
+    if isinstance(e, ast.UnaryOp) and isinstance(e.op, (ast.USub, ast.UAdd, ast.Invert)):
+        v = _affine(e.operand, env)
+        if v is None:
+            return None
+        if isinstance(e.op, ast.USub):
+            return (-v[0], -v[1])
+        if isinstance(e.op, ast.Invert):
+            return (-v[0], -v[1] - 1)        # ~x == -x - 1
+        return v
+    if isinstance(e, ast.BinOp) and isinstance(e.op, (ast.Add, ast.Sub)):
+        a, b = _affine(e.left, env), _affine(e.right, env)
+        if a is None or b is None:
+            return None
+        sg = 1 if isinstance(e.op, ast.Add) else -1
+        return (a[0] + sg * b[0], a[1] + sg * b[1])
+    return None
+
+
+def _leaf_paths(fn, keyparam):
+    """Events of every path of a leaf mutator: list of (found: bool, events),
+    events = [("insert", affine|None, line) | ("delete", affine|None, line) |
+    ("raise", name, line)]; found is None on paths that never test the index."""
+    out = []
+
+    def is_keys(e):
+        return isinstance(e, ast.Attribute) and e.attr == "_keys" or \
+            isinstance(e, ast.Name) and e.id in aliases
+
+    aliases = set()
+    for a in ast.walk(fn):
+        if isinstance(a, ast.Assign) and isinstance(a.value, ast.Attribute) and a.value.attr == "_keys" \
+                and pyfront.unparse(a.value.value) == "self":
+            for t in a.targets:
+                if isinstance(t, ast.Name):
+                    aliases.add(t.id)
+
+    def events_of(node, env, ev):
+        for c in ast.walk(node):
+            if isinstance(c, ast.Call) and isinstance(c.func, ast.Attribute) and is_keys(c.func.value):
+                if c.func.attr == "insert" and c.args:
+                    ev.append(("insert", _affine(c.args[0], env), c.lineno))
+                elif c.func.attr == "append":
+                    ev.append(("insert", None, c.lineno))
+                elif c.func.attr in ("pop", "remove"):
+                    ev.append(("delete", _affine(c.args[0], env) if c.args else None, c.lineno))
+
+    def decide(test, env, found):
+        """True / False / None for a test on the index given found/absent"""
+        if isinstance(test, ast.Compare) and len(test.ops) == 1:
+            l, r = _affine(test.left, env), _affine(test.comparators[0], env)
+            op = test.ops[0]
+            if l is not None and r is not None and found is not None:
+                a, b = l[0] - r[0], l[1] - r[1]          # a*S + b  op  0
+                if a == 0:
+                    v = b
+                    return {ast.Lt: v < 0, ast.LtE: v <= 0, ast.Gt: v > 0, ast.GtE: v >= 0,
+                            ast.Eq: v == 0, ast.NotEq: v != 0}.get(type(op))
+                # S ranges over [0, inf) when found, (-inf, -1] when absent
+                lo, hi = (b, None) if (found and a > 0) else (None, b) if (found and a < 0) else \
+                    (None, -a + b) if (not found and a > 0) else (-a + b, None)
+                # value range [lo, hi] (None = unbounded)
+                def always(pred_lo, pred_hi):
+                    return pred_lo, pred_hi
+                if isinstance(op, ast.GtE):
+                    if lo is not None and lo >= 0:
+                        return True
+                    if hi is not None and hi < 0:
+                        return False
+                if isinstance(op, ast.Gt):
+                    if lo is not None and lo > 0:
+                        return True
+                    if hi is not None and hi <= 0:
+                        return False
+                if isinstance(op, ast.Lt):
+                    if hi is not None and hi < 0:
+                        return True
+                    if lo is not None and lo >= 0:
+                        return False
+                if isinstance(op, ast.LtE):
+                    if hi is not None and hi <= 0:
+                        return True
+                    if lo is not None and lo > 0:
+                        return False
+        if isinstance(test, ast.UnaryOp) and isinstance(test.op, ast.Not):
+            v = decide(test.operand, env, found)
+            return None if v is None else not v
+        return None
+
+    def mentions_index(test, env):
+        return any(isinstance(n, ast.Name) and env.get(n.id) is not None and env[n.id][0] != 0
+                   for n in ast.walk(test))
+
+    def run(stmts, env, found, ev):
+        """continues along the statement list; raises _PathEnd at return/raise"""
+        for k, st in enumerate(stmts):
+            if isinstance(st, ast.Assign):
+                events_of(st.value, env, ev)
+                for t in st.targets:
+                    if isinstance(t, ast.Name):
+                        v = st.value
+                        if isinstance(v, ast.Call) and isinstance(v.func, ast.Attribute) and \
+                                v.func.attr == "_search" and v.args and \
+                                isinstance(v.args[0], ast.Name) and v.args[0].id == keyparam:
+                            env = dict(env)
+                            env[t.id] = (1, 0)
+                        else:
+                            env = dict(env)
+                            env[t.id] = _affine(v, env)
+                    elif isinstance(t, ast.Tuple):
+                        env = dict(env)
+                        for tt in t.elts:
+                            if isinstance(tt, ast.Name):
+                                env[tt.id] = None
+                continue
+            if isinstance(st, ast.Delete):
+                for t in st.targets:
+                    if isinstance(t, ast.Subscript) and is_keys(t.value):
+                        ev.append(("delete", _affine(t.slice, env), st.lineno))
+                continue
+            if isinstance(st, ast.Return):
+                if st.value is not None:
+                    events_of(st.value, env, ev)
+                out.append((found, list(ev)))
+                raise _PathEnd()
+            if isinstance(st, ast.Raise):
+                name = pyfront.unparse(st.exc).split("(")[0] if st.exc is not None else "re-raise"
+                ev.append(("raise", name, st.lineno))
+                out.append((found, list(ev)))
+                raise _PathEnd()
+            if isinstance(st, ast.If):
+                rest = stmts[k + 1:]
+                events_of(st.test, env, ev)
+                options = []
+                if mentions_index(st.test, env) and found is None:
+                    for f in (True, False):
+                        d = decide(st.test, env, f)
+                        if d is None:
+                            options += [(f, True), (f, False)]
+                        else:
+                            options.append((f, d))
+                else:
+                    d = decide(st.test, env, found) if found is not None else None
+                    options = [(found, d)] if d is not None else [(found, True), (found, False)]
+                for f, branch in options:
+                    ev2 = list(ev)
+                    try:
+                        env2 = run(st.body if branch else st.orelse, env, f, ev2)
+                        run(rest, env2, f, ev2)
+                        out.append((f, ev2))
+                    except _PathEnd:
+                        pass
+                raise _PathEnd()
+            if isinstance(st, (ast.For, ast.While, ast.Try, ast.With)):
+                raise AnalysisError("leaf mutator %s: unexpected %s at line %s" % (
+                    fn.name, type(st).__name__, st.lineno))
+            for child in ast.iter_child_nodes(st):
+                if isinstance(child, ast.expr):
+                    events_of(child, env, ev)
+        return env
+    try:
+        ev = []
+        run(fn.body, {}, None, ev)
+        out.append((None, ev))
+    except _PathEnd:
+        pass
+    return out
+
+
 def search_py(res):
     tree = pyfront.base_py()
     cls = pyfront.classes(tree)
@@ -325,78 +510,176 @@ def search_py(res):
             if not isinstance(fn, ast.FunctionDef):
                 raise AnalysisError("anchor vanished: %s.%s" % (cname, m))
             where = "%s.%s" % (cname, m)
-            first = fn.body[1] if isinstance(fn.body[0], ast.Expr) else fn.body[0]
+            keyparam = fn.args.args[1].arg
+            searches = [c for c in ast.walk(fn) if isinstance(c, ast.Call) and isinstance(c.func, ast.Attribute)
+                        and c.func.attr == "_search"]
             n += 1
-            if not (isinstance(first, ast.Assign) and pyfront.unparse(first.targets[0]) == "index" and
-                    pyfront.unparse(first.value) == "self._search(key)"):
+            if len(searches) != 1 or not (searches[0].args and isinstance(searches[0].args[0], ast.Name)
+                                          and searches[0].args[0].id == keyparam
+                                          and pyfront.unparse(searches[0].func.value) == "self"):
                 res.findings.add(dict(
                     rule="SEARCH-DEFUSE", function=where, file=REL, line=fn.lineno,
-                    construct="index is not self._search(key)",
+                    construct="slot index does not come from one self._search(%s)" % keyparam,
                     detail="the slot index must come from the search on "
                            "(self, key)", path=[]))
                 continue
-            ifs = [s for s in fn.body if isinstance(s, ast.If)]
-            if not ifs:
-                raise AnalysisError("unrecognised idiom: %s" % where)
-            top = ifs[0]
-            test = pyfront.unparse(top.test)
-            found_body, absent_body = (top.body, top.orelse) if test == "index >= 0" else \
-                (top.orelse, top.body) if test == "index < 0" else (None, None)
-            if found_body is None:
-                raise AnalysisError("unrecognised idiom: found test of %s" % where)
-            rest = [s for s in fn.body[fn.body.index(top) + 1:]]
-            absent_all = list(absent_body) + (rest if any(isinstance(x, ast.Return) or isinstance(x, ast.Raise)
-                                                          for b in found_body for x in ast.walk(b)) else [])
-
-            def has(body, pred):
-                return any(pred(x) for b in body for x in ast.walk(b))
-            ins = lambda x: isinstance(x, ast.Call) and isinstance(x.func, ast.Attribute) and \
-                x.func.attr == "insert" and "_keys" in pyfront.unparse(x.func.value)
-            dele = lambda x: isinstance(x, ast.Delete) and "_keys[index]" in pyfront.unparse(x)
-            n += 1
-            if has(found_body, ins) or (m == "_set" and not has(absent_all, ins)):
-                res.findings.add(dict(
-                    rule="SEARCH-BRANCH", function=where, file=REL, line=top.lineno,
-                    construct="key insertion is not confined to the absent branch",
-                    detail="a key is inserted only when the search did not "
-                           "find it (keys stay unique)", path=[]))
-            if m == "_del":
+            paths = _leaf_paths(fn, keyparam)
+            if not any(f is True for f, _ in paths) or not any(f is False for f, _ in paths):
+                raise AnalysisError("unrecognised idiom: %s does not branch on the search result" % where)
+            for found, ev in paths:
                 n += 1
-                if not has(found_body, dele) or has(absent_all, dele) or \
-                        not has(absent_all, lambda x: isinstance(x, ast.Raise) and "KeyError" in pyfront.unparse(x)):
+                ins = [e for e in ev if e[0] == "insert"]
+                dels = [e for e in ev if e[0] == "delete"]
+                raises = [e for e in ev if e[0] == "raise"]
+                bad = None
+                if found is None and (ins or dels):
+                    bad = ("key vector modified on a path that never tests the search result", (ins + dels)[0][2])
+                elif found is True:
+                    if ins:
+                        bad = ("key inserted although the search found it", ins[0][2])
+                    elif m == "_del" and not raises and [e[1] for e in dels] != [(1, 0)]:
+                        bad = ("found branch of _del removes %s (expected the slot the search returned)" % (
+                            [e[1] for e in dels],), fn.lineno)
+                    elif m == "_set" and dels:
+                        bad = ("key removed by _set", dels[0][2])
+                elif found is False:
+                    if dels:
+                        bad = ("key removed although the search did not find it", dels[0][2])
+                    elif m == "_set" and not raises and [e[1] for e in ins] != [(-1, -1)]:
+                        bad = ("absent branch of _set inserts at %s (expected -index - 1)" % (
+                            [e[1] for e in ins],), fn.lineno)
+                    elif m == "_del" and not any(e[1] == "KeyError" for e in raises):
+                        bad = ("absent branch of _del does not raise KeyError", fn.lineno)
+                if bad:
                     res.findings.add(dict(
-                        rule="SEARCH-BRANCH", function=where, file=REL, line=top.lineno,
-                        construct="deletion / KeyError not on the right branches",
-                        detail="the found branch deletes keys[index]; the "
-                               "absent branch raises KeyError", path=[]))
-            # absent insert index is -index - 1
-            if m == "_set":
-                n += 1
-                conv = [pyfront.unparse(a.value).replace(" ", "") for b in absent_all for a in ast.walk(b)
-                        if isinstance(a, ast.Assign) and pyfront.unparse(a.targets[0]) == "index"]
-                if conv != ["-index-1"]:
-                    res.findings.add(dict(
-                        rule="SEARCH-DEFUSE", function=where, file=REL, line=top.lineno,
-                        construct="insertion index is %s (expected -index - 1)" % conv,
-                        detail="_search returns -(insertion index) - 1 for an "
-                               "absent key", path=[]))
-    # _search contract: found -> i ; absent -> -1 - low
-    sfn = pyfront.class_members(cls["_BucketBase"]).get("_search")
-    n += 1
-    rets = [pyfront.unparse(r.value).replace(" ", "") for r in ast.walk(sfn) if isinstance(r, ast.Return)]
-    if sorted(rets) != sorted(["i", "-1-low"]):
-        res.findings.add(dict(
-            rule="SEARCH-DEFUSE", function="_BucketBase._search", file=REL, line=sfn.lineno,
-            construct="_search returns %s" % rets,
-            detail="_search must return the index when found and "
-                   "-(insertion index) - 1 otherwise", path=[]))
-    # binary search body: low = i + 1 when keys[i] < key else high = i
-    src = pyfront.unparse(sfn).replace(" ", "")
-    n += 1
-    if "ifcompare(k,key)<0:\nlow=i+1\nelse:\nhigh=i" not in src.replace("    ", ""):
-        res.findings.add(dict(
-            rule="SEARCH-DEFUSE", function="_BucketBase._search", file=REL, line=sfn.lineno,
-            construct="bisection step changed",
-            detail="bisection must move low past i when keys[i] < key and "
-                   "otherwise pull high down to i", path=[]))
+                        rule="SEARCH-BRANCH" if "insert" in bad[0] or "remove" in bad[0] or "KeyError" in bad[0]
+                        else "SEARCH-DEFUSE",
+                        function=where, file=REL, line=bad[1], construct=bad[0],
+                        detail="a key is inserted only when the search did not "
+                               "find it (at the insertion point -index - 1) and "
+                               "removed only from the slot where the search "
+                               "found it; deleting an absent key raises "
+                               "KeyError (keys stay unique and sorted)", path=[]))
+    n += _search_contract(res, cls)
     res.count("PY-SEARCH", n)
+
+
+def _search_contract(res, cls):
+    """_search: a bisection over [low, high) that returns the index when the
+    three-way comparison says equal and -1 - low when the interval is empty.
+    Roles (low, high, mid, comparison result) are recovered from the loop, not
+    from names."""
+    sfn = pyfront.class_members(cls["_BucketBase"]).get("_search")
+    if not isinstance(sfn, ast.FunctionDef):
+        raise AnalysisError("anchor vanished: _BucketBase._search")
+    loops = [l for l in ast.walk(sfn) if isinstance(l, ast.While)]
+    if len(loops) != 1:
+        raise AnalysisError("_search: expected one bisection loop")
+    loop = loops[0]
+    t = loop.test
+    if not (isinstance(t, ast.Compare) and len(t.ops) == 1 and isinstance(t.ops[0], (ast.Lt, ast.Gt))
+            and isinstance(t.left, ast.Name) and isinstance(t.comparators[0], ast.Name)):
+        raise AnalysisError("_search: loop condition %s" % pyfront.unparse(t))
+    low, high = (t.left.id, t.comparators[0].id) if isinstance(t.ops[0], ast.Lt) else \
+        (t.comparators[0].id, t.left.id)
+    bad = []
+    keyparam = sfn.args.args[1].arg
+    # mid: assigned in the loop from an expression over low and high
+    mid = None
+    cmpvars = set()
+    elems = set()          # names holding keys[mid]
+    for a in ast.walk(loop):
+        if isinstance(a, ast.Assign) and len(a.targets) == 1 and isinstance(a.targets[0], ast.Name):
+            names = set(x.id for x in ast.walk(a.value) if isinstance(x, ast.Name))
+            if {low, high} <= names:
+                mid = a.targets[0].id
+    if mid is None:
+        raise AnalysisError("_search: bisection roles not recognised (no midpoint of %s and %s)" % (low, high))
+    for a in ast.walk(loop):
+        if isinstance(a, ast.Assign) and len(a.targets) == 1 and isinstance(a.targets[0], ast.Name):
+            if isinstance(a.value, ast.Call) and pyfront.unparse(a.value.func) == "compare":
+                cmpvars.add(a.targets[0].id)
+            if isinstance(a.value, ast.Subscript) and mid in set(
+                    x.id for x in ast.walk(a.value.slice) if isinstance(x, ast.Name)):
+                elems.add(a.targets[0].id)
+
+    def is_elem(e):
+        if isinstance(e, ast.Name) and e.id in elems:
+            return True
+        return isinstance(e, ast.Subscript) and mid in set(
+            x.id for x in ast.walk(e.slice) if isinstance(x, ast.Name))
+
+    def is_key(e):
+        return isinstance(e, ast.Name) and e.id == keyparam
+
+    def is_cmp(e):
+        """1 / -1 when e is the three-way comparison of (element, key) / (key, element)"""
+        if isinstance(e, ast.Name) and e.id in cmpvars:
+            for a in ast.walk(loop):
+                if isinstance(a, ast.Assign) and isinstance(a.targets[0], ast.Name) and \
+                        a.targets[0].id == e.id and isinstance(a.value, ast.Call):
+                    return is_cmp(a.value)
+        if isinstance(e, ast.Call) and pyfront.unparse(e.func) == "compare" and len(e.args) == 2:
+            if is_elem(e.args[0]) and is_key(e.args[1]):
+                return 1
+            if is_key(e.args[0]) and is_elem(e.args[1]):
+                return -1
+        return None
+
+    def tval(t, sign):
+        if isinstance(t, ast.BoolOp):
+            vals = [tval(x, sign) for x in t.values]
+            return any(vals) if isinstance(t.op, ast.Or) else all(vals)
+        if isinstance(t, ast.UnaryOp) and isinstance(t.op, ast.Not):
+            return not tval(t.operand, sign)
+        if isinstance(t, ast.Compare) and len(t.ops) == 1:
+            l, r, op = t.left, t.comparators[0], t.ops[0]
+            o = is_cmp(l)
+            if o is not None and isinstance(r, ast.Constant) and isinstance(r.value, int):
+                v, c = o * sign, r.value
+                return {ast.Lt: v < c, ast.LtE: v <= c, ast.Gt: v > c, ast.GtE: v >= c,
+                        ast.Eq: v == c, ast.NotEq: v != c}[type(op)]
+            if (is_elem(l) and is_key(r)) or (is_key(l) and is_elem(r)):
+                if isinstance(op, (ast.Is, ast.Eq)):
+                    return sign == 0
+                if isinstance(op, (ast.IsNot, ast.NotEq)):
+                    return sign != 0
+        raise AnalysisError("_search: test %s" % pyfront.unparse(t))
+    # effects per sign of the comparison
+    effects = {}
+    for sign in (-1, 0, 1):
+        eff = []
+
+        def walk(stmts):
+            for st in stmts:
+                if isinstance(st, ast.If):
+                    if walk(st.body if tval(st.test, sign) else st.orelse):
+                        return True
+                elif isinstance(st, ast.Assign) and isinstance(st.targets[0], ast.Name) and \
+                        st.targets[0].id in (low, high):
+                    eff.append((("low" if st.targets[0].id == low else "high"), _affine(st.value, {mid: (1, 0)})))
+                elif isinstance(st, ast.Return):
+                    eff.append(("return", _affine(st.value, {mid: (1, 0)}) if st.value is not None else None))
+                    return True
+            return False
+        walk(loop.body)
+        effects[sign] = eff
+    want = {-1: [("low", (1, 1))], 0: [("return", (1, 0))], 1: [("high", (1, 0))]}
+    for sign in (-1, 0, 1):
+        if effects[sign] != want[sign]:
+            bad.append("when keys[mid] %s key the step is %s (expected %s)" % (
+                {-1: "<", 0: "==", 1: ">"}[sign], effects[sign], want[sign]))
+    # after the loop: -1 - low
+    after = [r for r in sfn.body if isinstance(r, ast.Return)]
+    if not after or _affine(after[-1].value, {low: (1, 0)}) != (-1, -1):
+        bad.append("the absent result is %s (expected -1 - %s)" % (
+            pyfront.unparse(after[-1].value) if after else None, low))
+    for b in bad:
+        res.findings.add(dict(
+            rule="SEARCH-DEFUSE", function="_BucketBase._search", file=REL, line=sfn.lineno,
+            construct="_search: %s" % b,
+            detail="_search is a bisection: low moves past mid when keys[mid] "
+                   "< key, high comes down to mid when keys[mid] > key, mid is "
+                   "returned on equality and -(insertion index) - 1 when the "
+                   "interval is empty", path=[]))
+    return 5
